@@ -1,6 +1,6 @@
 SPECIFICATION Spec
 CONSTANTS
- Kind = "fob"
+ Kind = "tbo"
  Cap0 = 2
  NInit = 0
  NC = 3
@@ -10,11 +10,12 @@ CONSTANTS
  MaxItems = 1
  MaxWakes = 1
  GenMode = FALSE
- CursorFix = FALSE
- AllowFront = TRUE
+ CursorFix = TRUE
+ AllowFront = FALSE
  Mut = "none"
  Perpetual = FALSE
  WaitMul = 1
  WaitAdd = 2
+ Panics = 1
 INVARIANTS NoViolation QueueMatchesFlags FreeListSound RemIsHeld LocSound ObligQueued GroupsSound
 CHECK_DEADLOCK FALSE
